@@ -53,6 +53,19 @@ Theorem C11_suffix_determinism : forall mn mx, 1 <= mn -> align4 mn <= mx ->
     length Sx - q - length (concat common) < 2 * mx.
 Proof. exact (suffix_determinism hash). Qed.
 
+(* chunks BEFORE an edit: two streams with the common prefix A (any segmentations) share a list [pre]
+   of chunks that reaches to within align4 mx bytes of the end of A (or into a tail zone) *)
+Theorem C11_prefix_determinism : forall mn mx, 1 <= mn -> align4 mn <= mx ->
+  forall (A R1 R2 : list B) pieces1 pieces2 j1 j2,
+  concat pieces1 = A ++ R1 -> concat pieces2 = A ++ R2 ->
+  exists pre t1 t2,
+    chunkify hash mn mx pieces1 j1 = pre ++ t1 /\ chunkify hash mn mx pieces2 j2 = pre ++ t2 /\
+    length (concat pre) <= length A /\
+    (length A - length (concat pre) < align4 mx \/
+     length (A ++ R1) - length (concat pre) < 2 * mx \/
+     length (A ++ R2) - length (concat pre) < 2 * mx).
+Proof. exact (prefix_determinism hash). Qed.
+
 (* boundaries outside the tail zone are multiples of 4 from the start of the stream, so a common
    boundary exists only for prefix lengths that agree mod 4 (the "aligned prefixes" of the property) *)
 Theorem C11_boundary_aligned : forall mn mx, 1 <= mn -> align4 mn <= mx -> forall (s : list B) k b,
@@ -133,6 +146,7 @@ End Generic.
 
 Print Assumptions C11_head_from_boundary.
 Print Assumptions C11_suffix_determinism.
+Print Assumptions C11_prefix_determinism.
 Print Assumptions C11_boundary_aligned.
 Print Assumptions C11_scan_first_max.
 Print Assumptions C11_ref_cut_dominant.
